@@ -79,7 +79,9 @@ pub const WEIRD_SIGS: &[&str] = &[
 /// signatures that cross the JVM's own limits (255 dimensions, 255 parameters): still just strings for this API
 pub fn limit_sigs() -> Vec<String> {
     let mut v = Vec::new();
-    for n in [255usize, 256, 257, 300, 1000, 20000] {
+    // in-process depths stay moderate: anything deeper goes through `deep_inputs` in a child process, where a stack
+    // overflow is attributed instead of taking the harness down
+    for n in [255usize, 256, 257, 300, 1000] {
         v.push(format!("({}I)V", "[".repeat(n)));
         v.push(format!("({}La/a;)V", "[".repeat(n)));
         v.push(format!("(){}J", "[".repeat(n)));
